@@ -39,6 +39,13 @@ func checkC17(r *core.Run) {
 	c17OneRepresentation(r, p, "R-C17-sym")
 	c17ValueFollowsMembership(r, p, "R-C17-sym")
 	c17DropWhenEmpty(r, p, "R-C17-sym")
+	// every added / removed record reaches the set - and through it the balance callbacks - exactly once:
+	// the batches of the commit tile the lists of changes (shared with C06)
+	if cm := p.Func("lib/utxo.(*UnspentDB).commit"); cm != nil {
+		batchTiling(r, p, "R-C17-notify", cm, 2)
+	} else {
+		r.Fail("R-C17-notify", "batches/anchor", "-", "the function that applies a block's changes to the unspent set was not found")
+	}
 }
 
 // c17RemoveFound: when an output leaves the set, the entry removed from the address's list is the one that
